@@ -352,6 +352,33 @@ def given_characteristic_check(ctx, comp, curve, where, label=""):
             return
 
 
+def inverse_table_check(ctx, comp, case, where):
+    """The interpolated inverse is computed by the MODEL alone from the points of the characteristic (`Comp.invTable`: the 200
+    samples of the forward map, the shape-preserving cubic through them) and compared with the interpolant the real component
+    built - no oracle involved.  Theorems on it: `inverse_exact_at_samples`, `inverse_monotone`, `interp_inverse_modelled`."""
+    curve, rated = case["curve"], case["rated"]
+    pts = curve if isinstance(curve[0], list) else [[1.0, min(curve[0], 1.0e6)]]
+    vs = [float(v) for v in case["powers"]][:8]
+    interp = getattr(comp, "_power_out_interp", None)
+    if interp is None:
+        ctx.count("inverse_table", "no private interpolant")
+        return
+    try:
+        out = ctx.model.call("comp.inverse_table", rated=enc(rated), points=[[enc(a), enc(b)] for a, b in pts], at=[enc(v) for v in vs])
+    except core.ModelReject as e:
+        ctx.fail("correspondence", "inverse-table-model-rejects", f"the model refuses the points the constructor accepted: {e}", where)
+        return
+    ctx.count("inverse_table", "compared")
+    if not out["accepted"]:
+        ctx.fail("correspondence", "inverse-table-monotonicity-test", "the model's 200 samples are not increasing, the constructor accepted", where)
+    lo, hi = float(dec(out["first"])), float(dec(out["last"]))
+    for v, mv in zip(vs, out["values"]):
+        real = float(interp(v))
+        tol = 1e-9 if lo <= v <= hi else 1e-7           # beyond the table the end cubic is extrapolated
+        if not close(dec(mv), real, tol=tol, scale=rated):
+            ctx.fail("correspondence", "inverse-table-value", f"at {v} kW: model {float(dec(mv))} impl {real} (rated {rated})", where)
+
+
 def run_case(ctx, case, model=True):
     where = {"case": case}
     ctx.use_model = model
@@ -373,6 +400,8 @@ def run_case(ctx, case, model=True):
     except Exception as e:
         ctx.count("constructor_rejects", core.error_class(e))
         return False
+    if k in ("basic", "gearbox", "machine") and model and ctx.model_available:
+        inverse_table_check(ctx, comp, case, where)
     if k == "gearbox":
         # the same gearbox inside a geared main engine: the engine-side power its run-point method works out is the gearbox's own
         # conversion of the shaft-side power, in either direction (D136: reverse power - a PTI above the shaft load - was divided by
